@@ -104,6 +104,9 @@ def enc_case(mode, text):
     return Case('gsm.enc %s %s' % (mode, nats(text)), out, sig, fail, {'op': 'enc', 'mode': mode, 'text': [ord(ch) for ch in text]})
 
 
+PLACEHOLDER = object()
+
+
 def ref_decode(data, mode):
     """reference decoder from the property statement; returns list of tokens (str, or None for
     'one placeholder'), 'error', or 'unspecified'"""
@@ -121,7 +124,7 @@ def ref_decode(data, mode):
             if k in spec.EXT:
                 out.append(spec.EXT[k])
             else:
-                out.append(None)            # exactly one placeholder
+                out.append(PLACEHOLDER)     # exactly one placeholder
             i += 2
             continue
         if b in spec.BASIC:
@@ -152,7 +155,10 @@ def dec_case(mode, data):
     elif want != 'unspecified':
         if t is None:
             fail = 'decoder raised on decodable input'
-        elif len(t) != len(want) or any(w is not None and w != g for w, g in zip(want, t)):
+        elif len(t) != len(want) or any((w is PLACEHOLDER and g in spec.ALPHABET) or
+                                        (w is not None and w is not PLACEHOLDER and w != g)
+                                        for w, g in zip(want, t)):
+            # a placeholder must be one character that no valid septet sequence decodes to
             fail = 'decoded text differs from the 3GPP table / placeholder rule: %r' % t
 
     def oc(b):
